@@ -7,7 +7,7 @@ import vlib
 
 PID = "C16"
 FILES = ["theories/Properties/C16.v", "theories/Examples/C16Examples.v", "theories/Examples/C16Wirings.v",
-         "theories/Examples/C16W3Wirings.v"]
+         "theories/Examples/C16W3Wirings.v", "theories/Examples/C16W5DeleteWhere.v"]
 
 
 def sys_families(sch):
@@ -66,13 +66,75 @@ def restore_of(vetoes):
     return None
 
 
-def state_of(facts):
-    """(root,id) -> dict(flag, fields (F/C/CF facts of the entity), members (child stores holding data))"""
+ENTRY_NAMES = {"u": "Db.Update", "b": "Db.Batch", "t": "a caller-managed bolt transaction with NewTxMutateContext",
+               "j": "Db.Update joined inside Db.Update", "k": "Db.Batch joined inside Db.Update",
+               "l": "Db.Update joined inside Db.Batch"}
+
+
+def entry_of(vetoes):
+    """the entry point of the transaction (harness store_c16w5.go, pseudo veto '@ep'); 'u' = Db.Update"""
+    for st, _, i in vetoes:
+        if st == "@ep":
+            v = bytes.fromhex(i).decode("latin-1") if i != "-" else "u"
+            return v if v in ENTRY_NAMES else "u"
+    return "u"
+
+
+def back_sets(sch):
+    """(root of the fk target, back-reference set) -> root of the family whose ids the set holds (fk INDEXES: the set lives in the
+    target entity and is the index 'who references me')"""
+    out = {}
+    for s in sch.order:
+        for k in sch.stores[s]["cons"]:
+            if k[0] == "FI":
+                out[(sch.root(k[2]), k[3])] = sch.root(s)
+        # the declared string sets of a store (set-index fields; link collections are not declared here): key (root, None, set)
+        for sn in sch.stores[s]["sets"]:
+            out[(sch.root(s), None, sn)] = sch.root(s)
+    return out
+
+
+def dw_matches(sch, ents, op):
+    """ids the filter of a DeleteWhere matches through its store in the content `ents` (Store/XOps.v dw_ids: a plain child store
+    shows the entities it holds data for, an extended one every entity of the root store; a child store sees the parent's
+    fields and its own)"""
+    s = op["store"]
+    d = sch.stores[s]
+    root = sch.root(s)
+    out = []
+    for (r, i), e in sorted(ents.items()):
+        if r != root:
+            continue
+        if d["parent"] is not None and not d["ext"] and s not in e["members"]:
+            continue
+        if op["field"] is None:
+            out.append(i)
+            continue
+        if d["parent"] is not None and any(f == op["field"] for f, _ in d["fields"]):
+            fact = "CF:%s:%s:%s:%s:s%s" % (root, i, s, op["field"], op["val"])
+        else:
+            fact = "F:%s:%s:%s:s%s" % (root, i, op["field"], op["val"])
+        if fact in e["fields"]:
+            out.append(i)
+    return out
+
+
+def state_of(facts, backs=None):
+    """(root,id) -> dict(flag, fields (F/C/CF facts of the entity), members (child stores holding data), index (the index
+    entries that point at the entity: unique / set index entries, back-reference sets of fk indexes))"""
     ents = {}
     for f in facts:
         p = f.split(":")
         if p[0] == "E":
-            ents.setdefault((p[1], p[2]), dict(flag="absent", fields=set(), members=set()))
+            ents.setdefault((p[1], p[2]), dict(flag="absent", fields=set(), members=set(), index=set(), sets=set()))
+    for f in facts:
+        p = f.split(":")
+        if p[0] in ("U", "X") and len(p) == 5 and (p[1], p[4]) in ents:
+            ents[(p[1], p[4])]["index"].add(f)
+        elif p[0] == "S" and len(p) == 5 and backs and (p[1], p[3]) in backs and (backs[(p[1], p[3])], p[4]) in ents:
+            ents[(backs[(p[1], p[3])], p[4])]["index"].add(f)
+        elif p[0] == "S" and len(p) == 5 and backs and (p[1], None, p[3]) in backs and (p[1], p[2]) in ents:
+            ents[(p[1], p[2])]["sets"].add(f)   # the values a set index of the entity is built from
     for f in facts:
         p = f.split(":")
         if p[0] in ("F", "C", "CF") and (p[1], p[2]) in ents:
@@ -133,6 +195,7 @@ def oracle(sch, txs, io, mo):
     fam = sys_families(sch)
     levels = sys_levels(sch)
     child_only = ", ".join("%s (child of %s)" % (c, r) for r, (has, cs) in sorted(levels.items()) if not has for c, _ in cs)
+    backs = back_sets(sch)
     prev = {}
     restored = ""
     for k, (t, a) in enumerate(zip(txs, io)):
@@ -144,7 +207,7 @@ def oracle(sch, txs, io, mo):
             if "panic" in a["results"]:
                 out.append(("C16:panic", "restoring the snapshot panicked", k))
                 break
-            prev = state_of(a["facts"])
+            prev = state_of(a["facts"], backs)
             restored = " [after step %d restored the content of step %d, mode %s]" % (k, rs[0], rs[1])
             continue
         modes = op_modes(vetoes, len(ops))
@@ -154,7 +217,9 @@ def oracle(sch, txs, io, mo):
             c = modes[j][0] if modes is not None else "b"
             return True if c in "snuy" else False if c == "x" else tsys
         op_sys = [kind(j) for j in range(len(ops))]
-        cur = state_of(a["facts"])
+        cur = state_of(a["facts"], backs)
+        entry = entry_of(vetoes)
+        via = "" if entry == "u" else " [transaction entered through %s]" % ENTRY_NAMES[entry]
         if "panic" in a["results"]:
             out.append(("C16:panic", "the library panicked inside the transaction", k))
             break
@@ -180,7 +245,7 @@ def oracle(sch, txs, io, mo):
                 root = sch.root(op["store"])
                 ctxt = " (after a system context had been derived from the same context object earlier in the transaction)" \
                     if derived_before else ""
-                ctxt += restored
+                ctxt += via + restored
                 if not levels[root][0]:
                     ctxt += " [the constraint is registered on the child store %s only]" % child_only
                 if op["kind"] == "C" and op["sys"]:
@@ -199,6 +264,26 @@ def oracle(sch, txs, io, mo):
                         out.append(("C16:system-delete-in-ordinary-context",
                                     "DeleteById through %s of system entity %s %s succeeded in a non-system context (op %d)%s"
                                     % (op["store"], root, op["id"], j, ctxt), k))
+            # DeleteWhere through an ordinary context (Properties/C16.v delete_where_system_refused): when the filter matches a
+            # protected system entity - at any position of the id order - the call must report an error
+            if op["kind"] == "DW" and sch.root(op["store"]) in fam and ok and not any(op_sys[:j + 1]):
+                root = sch.root(op["store"])
+                # field values are those of the content BEFORE the transaction: an entity an earlier operation of this body
+                # updated successfully (a child-only constraint on an extended store protects a flagged entity without
+                # extension data against delete, not against update through the root store) is not judged by a field filter
+                updated = set((sch.root(o2["store"]), o2["id"]) for j2, o2 in enumerate(ops[:j])
+                              if o2["kind"] == "UP" and a["results"][j2] == "ok")
+                hits = [i for i in dw_matches(sch, prev, op)
+                        if prev[(root, i)]["flag"] == "b1" and flag_now.get((root, i)) == "b1"
+                        and (op["field"] is None or (root, i) not in updated)
+                        and protects(levels, root, memb_now.get((root, i), set()))[1]]
+                if hits:
+                    allm = dw_matches(sch, prev, op)
+                    out.append(("C16:system-delete-where-in-ordinary-context",
+                                "DeleteWhere through %s (filter %s) matched system entity %s %s (ids matched, in the order of the "
+                                "query: %s) and returned no error in a non-system context (op %d)%s%s"
+                                % (op["store"], "true" if op["field"] is None else "%s = %s" % (op["field"], op["val"]), root,
+                                   ",".join(hits), ",".join(allm), j, via, restored), k))
             # (iii) ordinary entities are unaffected by the constraint: an update / delete of an entity whose stored flag is
             # NOT set (and a create without the flag) that the machine accepts - it accepts exactly what the machine without
             # any system constraint accepts: ordinary_*_unaffected - must not be refused by the implementation
@@ -222,22 +307,48 @@ def oracle(sch, txs, io, mo):
                 memb_now.pop((sch.root(op["store"]), op["id"]), None)
             if modes is not None and modes[j][0] in "snu":
                 derived_before = True
-        # ... and the committed state shows every system entity untouched (also through cascades and child stores) when no
-        # operation of the transaction ran through a system context
-        if not any(op_sys) and a["commit"]:
+        # ... and the DURABLE content after the transaction shows every system entity untouched (also through cascades, child
+        # stores, DeleteWhere) when no operation of the transaction ran through a system context - whatever the caller got
+        # back: the observation is read in a new transaction after the entry point returned, so it is what the attempt left
+        # behind (a refused Create / DeleteById has written before it refused and relies on the rollback of the entry point)
+        if not any(op_sys):
+            outcome = "a committed non-system transaction" if a["commit"] else \
+                "a non-system transaction that FAILED (the caller got the error back, the content changed nevertheless)"
             for (root, i), e in prev.items():
                 if root in fam and e["flag"] == "b1":
                     upd, dele = protects(levels, root, e["members"])
-                    note = restored + ("" if levels[root][0] else " [the constraint is registered on the child store %s only]" % child_only)
+                    note = via + restored + ("" if levels[root][0] else " [the constraint is registered on the child store %s only]" % child_only)
                     e2 = cur.get((root, i))
                     if e2 is None:
                         if dele:
-                            out.append(("C16:system-entity-removed-in-ordinary-context", "system entity %s %s disappeared in a "
-                                        "committed non-system transaction%s" % (root, i, note), k))
+                            out.append(("C16:system-entity-removed-in-ordinary-context", "system entity %s %s disappeared in "
+                                        "%s%s" % (root, i, outcome, note), k))
                     elif e2["fields"] != e["fields"] and (upd == "all" or upd):
-                        out.append(("C16:system-entity-changed-in-ordinary-context", "system entity %s %s changed in a committed "
-                                    "non-system transaction: +%s -%s%s" % (root, i, sorted(e2["fields"] - e["fields"])[:4],
-                                                                         sorted(e["fields"] - e2["fields"])[:4], note), k))
+                        out.append(("C16:system-entity-changed-in-ordinary-context", "system entity %s %s changed in %s: "
+                                    "+%s -%s%s" % (root, i, outcome, sorted(e2["fields"] - e["fields"])[:4],
+                                                   sorted(e["fields"] - e2["fields"])[:4], note), k))
+                    elif e2["fields"] == e["fields"] and e2["sets"] == e["sets"] and e2["index"] != e["index"] and \
+                            (upd == "all" or upd or dele):
+                        refused = [j for j, op in enumerate(ops) if j < len(a["results"]) and a["results"][j] != "ok"
+                                   and op["kind"] in ("D", "DW", "UP")]
+                        out.append(("C16:system-entity-deindexed-in-ordinary-context", "system entity %s %s is unchanged but its "
+                                    "index entries differ after %s: lost %s, gained %s%s%s"
+                                    % (root, i, outcome, sorted(e["index"] - e2["index"])[:4], sorted(e2["index"] - e["index"])[:4],
+                                       " (op %d was refused with an error: what it had already done was not undone)" % refused[0]
+                                       if refused else "", note), k))
+            for (root, i), e2 in cur.items():
+                if root in fam and e2["flag"] == "b1" and ((root, i) not in prev or prev[(root, i)]["flag"] != "b1"):
+                    has, cs = levels[root]
+                    if has or any(c in e2["members"] for c, _ in cs):
+                        tried = [j for j, op in enumerate(ops) if op["kind"] == "C" and op.get("sys") and op["id"] == i
+                                 and sch.root(op["store"]) == root and j < len(a["results"])]
+                        what = ""
+                        if tried:
+                            j = tried[-1]
+                            what = " (op %d: Create through %s with the system flag returned %s)" % (j, ops[j]["store"], a["results"][j])
+                        note = via + restored + ("" if has else " [the constraint is registered on the child store %s only]" % child_only)
+                        out.append(("C16:system-entity-created-in-ordinary-context", "system entity %s %s exists after %s%s%s"
+                                    % (root, i, outcome, what, note), k))
         # (ii) the flag of an entity never changes between its creation and its deletion (any store, any context)
         created = set((sch.root(op["store"]), op["id"]) for j, op in enumerate(ops)
                       if op["kind"] == "C" and j < len(a["results"]) and a["results"][j] == "ok")
@@ -281,6 +392,9 @@ def nontrivial(sch, txs, io):
             if j < len(a["results"]) and op["kind"] in ("UP", "D") and sch.root(op["store"]) in fam and \
                     prev.get((sch.root(op["store"]), op["id"]), {}).get("flag") == "b1":
                 hit = True
+            if j < len(a["results"]) and op["kind"] == "DW" and sch.root(op["store"]) in fam and \
+                    any(r == sch.root(op["store"]) and e.get("flag") == "b1" for (r, _), e in prev.items()):
+                hit = True
         if swallow_tokens(a):
             hit = True
         prev = state_of(a["facts"])
@@ -298,7 +412,10 @@ def main(argv):
                      "fields persisted with PersistContext.SetRequiredString always receive a non-empty value (field validation is not "
                      "part of the store machine); linked ids written by PersistContext.SetLinkedIds are outside the compared projection",
                      "a restore step replaces the whole bolt file by a snapshot taken earlier in the same history (Db.StreamToWriter); "
-                     "the model counterpart is state := state after step k (Store/SystemRestore.v)"]
+                     "the model counterpart is state := state after step k (Store/SystemRestore.v)",
+                     "every entry point of a transaction (Db.Update, Db.Batch, a join of either inside an open transaction, a bolt "
+                     "transaction the caller rolls back when the body returned an error) has the contract of Db.Update: run_tx / "
+                     "run_mtx / run_xtx of the machine; the entry point is not modelled separately"]
     proof_ok = c.proof_step(FILES)
     storefamx.run_family_x(
         c, "c16", 2000, 24000, compare, oracle,
@@ -330,8 +447,18 @@ def main(argv):
         "child level), GetAndSetString, GetAndSetStringList and - decorations l / e of a mixed transaction - SetLinkedIds: the "
         "refusal latched before PersistEntity must survive every write helper and nothing may be written after it (required "
         "values are always supplied: the machine does not model field validation; links are outside the projection and only "
-        "seen by the dump around a swallowed refusal). Non-trivial: the history updates or deletes an existing system entity "
-        "of a constrained family, or a refusal was swallowed.",
+        "seen by the dump around a swallowed refusal). Fifth strengthening (store_c16w5.go): ~35% of the transactions (plain and "
+        "mixed) name their ENTRY POINT - Db.Batch, a bolt transaction the caller manages itself around "
+        "NewTxMutateContext, Db.Update / Db.Batch joined inside an open transaction - and the oracle judges the DURABLE "
+        "content after every transaction none of whose operations used a system context, whatever the caller got back: no "
+        "system entity of a constrained family appears, changes, disappears or loses index entries (unique / set index "
+        "entries, fk back-reference sets); aimed refusals (create with the flag, update, delete of a protected entity at a "
+        "random position of an ordinary body) and DeleteWhere through the root, plain child and extended child store over "
+        "populations mixing system and ordinary entities (filter true or a value a system entity holds, an ordinary entity "
+        "with the same value under a random id created in front of it; 78% ordinary contexts): a DeleteWhere of an ordinary "
+        "context whose filter matches a protected system entity must report an error (Store/SystemDeleteWhere.v, "
+        "delete_where_system_refused: at any position of the id order). Non-trivial: the history updates or deletes an existing "
+        "system entity of a constrained family (also by DeleteWhere), or a refusal was swallowed.",
         nontrivial=nontrivial)
     if not proof_ok:
         c.violation(PID + ":proof", "proof obligation no longer checks: %s" % json.dumps(c.proof_broken)[:600],
